@@ -86,3 +86,37 @@ theorem nfT_canonT : ∀ (t : TStride), nfT (canonT t) = true
 theorem canonT_idem (t : TStride) : canonT (canonT t) = canonT t := canonT_of_nfT _ (nfT_canonT t)
 
 end SnaxVerif.Tsl
+
+namespace SnaxVerif.Tsl
+
+/-- canonicalising never adds a tile -/
+theorem canonT_length_le : ∀ (t : TStride), (canonT t).length ≤ t.length
+  | [] => Nat.le_refl _
+  | s :: r => by
+    have ih := canonT_length_le r
+    rw [canonT]
+    cases hc : canonT r with
+    | nil => simp
+    | cons h t =>
+      rw [hc] at ih
+      simp only [List.length_cons] at ih ⊢
+      split
+      · simp only [List.length_cons]; omega
+      · split
+        · simp only [List.length_cons]; omega
+        · simp only [List.length_cons]; omega
+
+/-- "always keep the innermost one": a non-empty dimension stays non-empty -/
+theorem canonT_ne_nil : ∀ (t : TStride), t ≠ [] → canonT t ≠ []
+  | [], h => absurd rfl h
+  | s :: r, _ => by
+    rw [canonT]
+    cases hc : canonT r with
+    | nil => simp
+    | cons h t =>
+      simp only
+      split
+      · simp
+      · split <;> simp
+
+end SnaxVerif.Tsl
